@@ -200,3 +200,12 @@ Print Assumptions C16_hex_roundtrip.
 Theorem C16_decimal_roundtrip : forall max z, 0 <= z <= max -> parse_uint max (to_dec z) = Some z.
 Proof. exact parse_uint_to_dec. Qed.
 Print Assumptions C16_decimal_roundtrip.
+
+(* make_config AS TRANSLATED: the argument "ENV" selects the environment, anything else is read as a file
+   path — so the whole way from the command-line argument to the loaded configuration is the code's *)
+Theorem C16_translated_make_config_is_model :
+  forall cores env fs arg,
+  gen_make_config cores env fs arg
+  = if bytes_eqb arg t_ENV then env_load cores env else file_load cores (fs arg).
+Proof. exact gen_make_config_model. Qed.
+Print Assumptions C16_translated_make_config_is_model.
